@@ -286,6 +286,8 @@ def handleAvro (toks : List String) : Option String :=
   C17 csvsplit <delim> <k> <hex>  arbitrary input bytes → the records the reader model splits them into
   C17 jsonstr <hex>               UTF-8 string → hex of the quoted, escaped JSON token
   C17 jsonunesc <hex>             a JSON string token → hex of the decoded string, or ERR:parse
+  C17 jsonbin <hex>               bytes → hex of the JSON token of a Binary value (lower-case hex string)
+  C17 jsonunbin <hex>             the characters of a hex string → hex of the bytes the reader decodes, or ERR:parse
   C17 jsonrt / csvrt …            whole-batch round trips checked in the harness (answer echoes the row count)
 -/
 def parseRecords (s : String) : Option (List (List (List Nat))) :=
@@ -330,6 +332,25 @@ def Text.handleText (toks : List String) : Option String :=
       match Json.decodeString tok with
       | some (s, []) => some (toHex s)
       | some (_, _) => some "ERR:trailing"
+      | none => some "ERR:parse"
+    | none => some "bad-op"
+  | ["jsonbin", hex] =>
+    match parseHex hex with
+    | some bs =>
+      let tok := Json.encodeBinary bs
+      -- model reader on the model writer's token (and the simple decoder next to the chunked one)
+      let inner := (tok.drop 1).take (tok.length - 2)
+      if Json.decodeHexToWriter inner != some bs || Json.decodeHexSimple inner != some bs then
+        some "MODEL-SPEC-MISMATCH jsonbin"
+      else some (toHex tok)
+    | none => some "bad-op"
+  | ["jsonunbin", hex] =>
+    match parseHex hex with
+    | some s =>
+      let a := Json.decodeHexToWriter s
+      if a != Json.decodeHexSimple s then some "MODEL-SPEC-MISMATCH jsonunbin" else
+      match a with
+      | some bs => some (toHex bs)
       | none => some "ERR:parse"
     | none => some "bad-op"
   | ["jsonrt", _opts, _schema, n, _rows] => some s!"rows={n}"
